@@ -35,4 +35,13 @@ theorem code_array_coordinates (g : Grid) (hg : C18.WF g) (x y : Rat) :
     Gen.array_from_proj x y g.dx g.dy (g.uplx, g.uply) = ((x - g.x0) / g.dx - 1 / 2, (g.y1 - y) / g.dy - 1 / 2) := by
   rw [tie_array_from_proj, C18.arrX_form hg, C18.arrY_form hg]
 
+/-- … and that also with the resolution read through the (translated) `resolution` property of the area, from the
+quantities the (translated) `__init__` derives: the bucket indices are the containing cell on every orientation of the axes -/
+theorem code_bucket_cell_via_property (g : Grid) (x y : Rat) :
+    (let d := Gen.area_init_derived (g.x0, g.y0, g.x1, g.y1) (g.x0, g.y0, g.x1, g.y1) g.w g.h
+     let r := Gen.bucket_indices x y (Gen.area_resolution d.1 d.2.1) (g.x0, g.y0, g.x1, g.y1) g.w g.h ((g.h : Int), (g.w : Int))
+     if r.1 < 0 then none else some (r.1.toNat, r.2.1.toNat)) = Grid.cellOf g x y := by
+  simp only [tie_area_init_derived, tie_area_resolution]
+  exact code_bucket_cell g x y
+
 end PyresampleModel.Tie
